@@ -26,6 +26,13 @@ Section Load.
 Variable crc : list N -> N.
 
 (** read every listed shard; None = some file missing (Open fails before anything is read) *)
+(** a manifest that names a file twice is refused (repair D19) *)
+Fixpoint has_dup (l : list N) : bool :=
+  match l with
+  | [] => false
+  | x :: r => existsb (N.eqb x) r || has_dup r
+  end.
+
 Fixpoint open_all (d : dirimg) (names : list N) : option (list (list N)) :=
   match names with
   | [] => Some []
@@ -63,6 +70,8 @@ Definition load_dir (ver : N) (d : dirimg) (optional : bool) : lres :=
       end
     else LErr
   | POk names =>
+    (* nitro.go hasDuplicate: StoreToDisk never writes a name twice *)
+    if has_dup names then LErr else
     match d_cks d with
     | PBad => LErr
     | POk cks =>
